@@ -870,6 +870,10 @@ func ruleAccumulatorsFromZero(r *Report) {
 							acc = true
 						} else if x.Parent() == fn {
 							inits = append(inits, x)
+						} else {
+							// a per-block closure that assigns instead of adding keeps the last block only
+							acc = true
+							bad = r.P.InstrPos(x) + " (assigned per block, not accumulated)"
 						}
 					case *ssa.MakeClosure:
 						for i, b := range x.Bindings {
